@@ -70,6 +70,11 @@ func (c Cfg) Flags() []string {
 
 // RunCLI runs the binary in dir with args; stdin may be empty. The directory tree is read back afterwards.
 func RunCLI(bin, dir string, args []string, stdin string, timeout time.Duration) CLIResult {
+	return RunCLITo(bin, dir, args, stdin, timeout, "")
+}
+
+// RunCLITo is RunCLI with the standard output connected to the named file or device (fault injection: /dev/full) instead of a pipe.
+func RunCLITo(bin, dir string, args []string, stdin string, timeout time.Duration, stdoutPath string) CLIResult {
 	ctx, cancel := context.WithTimeout(context.Background(), timeout)
 	defer cancel()
 	cmd := exec.CommandContext(ctx, bin, args...)
@@ -77,6 +82,14 @@ func RunCLI(bin, dir string, args []string, stdin string, timeout time.Duration)
 	cmd.Stdin = strings.NewReader(stdin)
 	var so, se bytes.Buffer
 	cmd.Stdout, cmd.Stderr = &so, &se
+	if stdoutPath != "" {
+		f, err := os.OpenFile(stdoutPath, os.O_WRONLY, 0)
+		if err != nil {
+			return CLIResult{Exit: -1, Stderr: "HARNESS: cannot open " + stdoutPath + ": " + err.Error()}
+		}
+		defer f.Close()
+		cmd.Stdout = f
+	}
 	runaway := false
 	err := cmd.Start()
 	if err == nil {
